@@ -19,12 +19,12 @@ _LN_SCALE = {"[D]": [4], "[1,D]": [1, 4], "[]": [], "[S,D]": [3, 4], "[B,S,D]": 
 def _ln_dims(rule):
     return [
         Dim("sq", ["mul", "pow"]), Dim("norm", ["recip-mul", "div"]),
-        Dim("axes", ["[-1]", "[last]", "[-2]", "mean[-1]var[-2]"]),
-        Dim("keepdims", ["1", "absent", "0"]),
-        Dim("eps", ["1e-5", "0.1", "[1]", "[1,1,1]"]),
         Dim("scale", list(_LN_SCALE)),
-        Dim("dtype", ["f32", "f64"], ["f32", "f64", "f16"]),
-        Dim("xrank", [3, 2, 1]),
+        Dim("axes", ["[-1]", "[last]", "[-2]", "mean[-1]var[-2]"], cost=1),
+        Dim("keepdims", ["1", "absent", "0"], cost=1),
+        Dim("eps", ["1e-5", "0.1", "[1]", "[1,1,1]"], cost=1),
+        Dim("dtype", ["f32", "f64", "f16"], cost=1),
+        Dim("xrank", [3, 2, 1], cost=1),
         Dim("scale_order", ["ns", "sn"], cost=1),
         Dim("scale_src", ["init", "input"], cost=1),
         Dim("pow_exp", ["2", "2.00001", "2.01", "[2]"], cost=1),
@@ -50,7 +50,7 @@ def _ln_build(p, rule):
     mb = MB(p["opset"])
     xs = [2, 3, 4][3 - p["xrank"]:]
     x = mb.inp("x", dt, S.shp(p, xs))
-    S.bind_like(mb, xs, variants=[{"N": 1, "?0": 1}])
+    S.bind_like(mb, xs)   # no other runtime size: the shapes of scale / eps are tied to x's dims
     r = len(xs)
     a1 = {"[-1]": [-1], "[last]": [r - 1], "[-2]": [-2], "mean[-1]var[-2]": [-1]}[p["axes"]]
     a2 = [-2] if p["axes"] == "mean[-1]var[-2]" else a1
@@ -88,6 +88,8 @@ def _ln_near(p, rule):
 
 
 def _ln_klass(nd, p, rule):
+    if nd.get("pow_exp") == "2.00001":
+        return "pow_exp=2.00001"
     if "scale" in nd and set(nd) <= {"scale", "xrank", "sq", "norm", "eps", "dtype"}:
         return "scale=" + nd["scale"]
     if "eps" in nd and set(nd) <= {"eps", "xrank", "sq", "norm", "dtype"}:
@@ -95,8 +97,7 @@ def _ln_klass(nd, p, rule):
     return None
 
 
-S.register(Space("layer_norm", _ln_dims, _ln_build, near=_ln_near, prune=_ln_prune, klass=_ln_klass, accum=True,
-                 max_dev={"thorough": 1}),
+S.register(Space("layer_norm", _ln_dims, _ln_build, near=_ln_near, prune=_ln_prune, klass=_ln_klass, accum=True),
            rule_ids=["fusion._layer_norm.LayerNormFusion"])
 
 
@@ -112,10 +113,10 @@ def _lb_dims(rule):
         Dim("bias", list(_LB_BIAS)),
         Dim("axis", ["absent", -1, 1, 0, -2]),
         Dim("outputs", [1, 3, 2]),
-        Dim("has_bias", ["no", "yes"]),
-        Dim("add_order", ["lb", "bl"]),
-        Dim("eps", ["absent", 0.1]), Dim("stash", ["absent", 1]),
-        Dim("dtype", ["f32"], ["f32", "f64", "f16"]),
+        Dim("has_bias", ["no", "yes"], cost=1),
+        Dim("add_order", ["lb", "bl"], cost=1),
+        Dim("eps", ["absent", 0.1], cost=1), Dim("stash", ["absent", 1], cost=1),
+        Dim("dtype", ["f32", "f64", "f16"], cost=1),
         Dim("bias_src", ["init", "input"], cost=1),
         S.d_inter(1), S.D_DIMS, S.D_VI, S.d_opset(18, 17, 21, 23),
     ]
@@ -127,7 +128,7 @@ def _lb_build(p, rule):
     mb = MB(p["opset"])
     xs = [2, 3, 4]
     x = mb.inp("x", dt, S.shp(p, xs))
-    S.bind_like(mb, xs, variants=[{"N": 1, "?0": 1}])
+    S.bind_like(mb, xs)
     ax = -1 if p["axis"] == "absent" else p["axis"]
     nshape = xs[ax % 3:]
     sc = mb.const((_w(dt, nshape, salt=4, scale=0.5) + d(1.5)).astype(d), "init")
@@ -178,11 +179,11 @@ def _rms_dims(rule):
         Dim("casts", ["none", "both", "first", "last"]),
         Dim("xdt", ["f32", "f16", "f64"]),
         Dim("compute", ["f32", "f64", "f16"]),
-        Dim("eps", ["1e-6", "[1]", "0.1"]),
-        Dim("scale", ["[D]", "[]", "[S,D]", "[1,D]"]),
         Dim("scale_order", ["ns", "sn"]),
-        Dim("red_attrs", ["kd1-noop0", "kd1", "none", "kd0-noop0"]),
-        Dim("axes", ["[-1]", "[last]", "[-2]"]),
+        Dim("eps", ["1e-6", "[1]", "0.1"], cost=1),
+        Dim("scale", ["[D]", "[]", "[S,D]", "[1,D]"], cost=1),
+        Dim("red_attrs", ["kd1-noop0", "kd1", "none", "kd0-noop0"], cost=1),
+        Dim("axes", ["[-1]", "[last]", "[-2]"], cost=1),
         Dim("pow_exp", ["2", "2.00001", "2.01", "int2"], cost=1),
         Dim("scale_dt", ["same", "f32"], cost=1),
         S.d_ck(1), S.d_inter(3), S.D_DIMS, S.D_VI, S.d_opset(23, 18, 21),
@@ -202,7 +203,7 @@ def _rms_build(p, rule):
     xdt = p["xdt"]
     xs = [2, 3, 4]
     x = mb.inp("x", xdt, S.shp(p, xs))
-    S.bind_like(mb, xs, variants=[{"N": 1, "?0": 1}])
+    S.bind_like(mb, xs)
     cdt = xdt
     xc = x
     if p["casts"] in ("both", "first"):
@@ -239,16 +240,32 @@ def _rms_near(p, rule):
         or p["scale"] != "[D]" or S.is_nonconst(p) or p["opset"] < 23 or p["inter"] != "none"
 
 
+_PREC = {"f16": 2e-3, "f32": 1e-5, "f64": 1e-9}
+
+
+def _rms_tol(p, rule):
+    """The original computes in the Cast's type: its own result is only that accurate."""
+    if p["casts"] in ("both", "first", "last"):
+        lo = max(_PREC[p["compute"]], _PREC[p["xdt"]])
+        out = p["xdt"] if p["casts"] == "both" else (p["compute"] if p["casts"] == "first" else p["compute"])
+        return max(1.0, lo / _PREC[out])
+    return 1.0
+
+
 def _rms_klass(nd, p, rule):
     nd = {k: v for k, v in nd.items() if k != "scale_order"}
+    if nd.get("pow_exp") == "2.00001":
+        return "pow_exp=2.00001"
+    if nd.get("casts") in ("first", "last") and set(nd) <= {"casts", "xdt", "compute"}:
+        return "casts=" + nd["casts"] + "-only"
     if "opset" in nd and nd["opset"] < 23 and set(nd) <= {"opset", "casts", "xdt", "compute"}:
         return "opset<23"
     return ",".join(f"{k}={v}" for k, v in nd.items()) or "default"
 
 
-_RMS = S.register(Space("rms_norm", _rms_dims, _rms_build, near=_rms_near, prune=_rms_prune, klass=_rms_klass, accum=True,
-                        max_dev={"thorough": 1}),
+_RMS = S.register(Space("rms_norm", _rms_dims, _rms_build, near=_rms_near, prune=_rms_prune, klass=_rms_klass, accum=True),
                   rule_ids=["fusion._rms_normalization.RmsNormFusion1", "fusion._rms_normalization.RmsNormFusion2"])
+_RMS.tol = _rms_tol
 
 
 # ---------------------------------------------------------------------------------------------------
@@ -259,15 +276,19 @@ def _ro_dims(rule):
         Dim("D", [4, 6, 5, 2]),
         Dim("unsq", ["[1],[1]", "[0],[1]", "[1],[2]", "1,1"]),
         Dim("split", ["half", "start2+1", "end1-1", "start1=1"]),
-        Dim("end2", ["D", "MAX", "D-1"]),
-        Dim("freqs", ["[B,S,h]", "[1,S,h]", "[S,h]"]),
-        Dim("slice_axes", ["[3]", "[-1]"]),
-        Dim("concat_axis", [-1, 3]),
-        Dim("dtype", ["f32"], ["f32", "f16", "f64"]),
+        Dim("end2", ["D", "MAX", "D-1"], cost=1),
+        Dim("freqs", ["[B,S,h]", "[1,S,h]", "[S,h]"], cost=1),
+        Dim("slice_axes", ["[3]", "[-1]"], cost=1),
+        Dim("concat_axis", [-1, 3], cost=1),
+        Dim("dtype", ["f32", "f16", "f64"], cost=1),
         Dim("heads", ["static", "symbolic"], cost=1),
         Dim("orders", ["default", "cos-first", "rot-first"], cost=1),
         S.d_ck(4), S.d_inter(2), S.D_DIMS, S.D_VI, S.d_opset(23, 18, 21),
     ]
+
+
+def _ro_prune(p, rule):
+    return p["D"] % 2 == 1 and False
 
 
 def _ro_build(p, rule):
@@ -328,7 +349,13 @@ def _ro_near(p, rule):
         or p["freqs"] != "[B,S,h]"
 
 
-S.register(Space("rotary_embedding", _ro_dims, _ro_build, near=_ro_near, max_dev={"thorough": 1}),
+def _ro_klass(nd, p, rule):
+    if "opset" in nd and nd["opset"] < 23 and len(nd) == 1:
+        return "opset<23"
+    return None
+
+
+S.register(Space("rotary_embedding", _ro_dims, _ro_build, near=_ro_near, klass=_ro_klass),
            rule_ids=["fusion._rotary_embedding.RotaryEmbedding23"])
 
 
@@ -341,22 +368,17 @@ def _pr_dims(rule):
         Dim("s2", ["=e1", "e1+1", "e1-1"]),
         Dim("interleaved", ["absent", 0, 1]),
         Dim("red", ["absent", "set"]),
-        Dim("num_heads", ["absent", "set"]),
-        Dim("xrank", [4, 3]),
-        Dim("pos_ids", ["absent", "given"]),
-        Dim("start1", ["[0]", "[1]"]), Dim("end2", ["MAX", "D"]),
-        Dim("concat_axis", [-1, 3]),
-        Dim("dtype", ["f32"], ["f32", "f16"]),
+        Dim("num_heads", ["absent", "set"], cost=1),
+        Dim("pos_ids", ["absent", "given"], cost=1),
+        Dim("start1", ["[0]", "[1]"], cost=1), Dim("end2", ["MAX", "D"], cost=1),
+        Dim("concat_axis", [-1, 3], cost=1),
+        Dim("dtype", ["f32", "f16"], cost=1),
         S.d_ck(2), S.d_inter(3), S.D_DIMS, S.D_VI, S.d_opset(23, 21),
     ]
 
 
 def _pr_prune(p, rule):
-    if p["xrank"] == 3 and (p["num_heads"] != "set" or p["concat_axis"] == 3):
-        return True
-    if p["e1"] == 8 and p["s2"] == "e1+1":
-        return True
-    return False
+    return p["e1"] == 8 and p["s2"] == "e1+1"
 
 
 def _pr_build(p, rule):
@@ -365,11 +387,8 @@ def _pr_build(p, rule):
     B, H, Sq, D = 2, 3, 2, 8
     e1 = p["e1"]
     s2 = {"=e1": e1, "e1+1": e1 + 1, "e1-1": e1 - 1}[p["s2"]]
-    if p["xrank"] == 4:
-        xs = [B, H, Sq, D]
-        axv = [3]
-    else:
-        raise Skip("pattern slices axis 3: 3-D input cannot match")
+    xs = [B, H, Sq, D]
+    axv = [3]
     x = mb.inp("x", dt, S.shp(p, xs))
     S.bind_like(mb, xs)
     k = S.kinds(p, 2)
@@ -409,7 +428,7 @@ def _pr_near(p, rule):
         or p["inter"] != "none"
 
 
-S.register(Space("partial_rotary_embedding", _pr_dims, _pr_build, near=_pr_near, prune=_pr_prune, max_dev={"thorough": 1}),
+S.register(Space("partial_rotary_embedding", _pr_dims, _pr_build, near=_pr_near, prune=_pr_prune),
            rule_ids=["fusion._rotary_embedding.PartialRotaryEmbedding23Fusion"])
 
 
@@ -419,24 +438,20 @@ S.register(Space("partial_rotary_embedding", _pr_dims, _pr_build, near=_pr_near,
 def _gq_dims(rule):
     return [
         Dim("heads", ["4/2", "2/2", "4/1", "4/4"]),
-        Dim("P", [2, 1]), Dim("S", [3, 1]),
         Dim("mask", ["absent", "float", "bool"]),
         Dim("causal", ["absent", 1]),
-        Dim("scale", ["absent", 0.5]),
-        Dim("unsq", ["[2]", "scalar2", "[1]"]),
-        # how the key heads are replicated: as GQA needs (repeat-interleave), tiled (head order differs), via a
-        # value-side mistake (value replicated with the other layout)
-        Dim("expand", ["interleave", "tile", "value-tiled"]),
-        Dim("vd", ["same", "differs"]),
-        Dim("dtype", ["f32"], ["f32", "f16"]),
+        # axes operand of Unsqueeze: the pattern's literal 2 only matches a 0-d tensor (default: the form that fires)
+        Dim("unsq", ["scalar2", "[2]", "scalar1"]),   # scalar1: heads replicated along a new axis 1 (tiled order)
+        Dim("P", [2, 1], cost=1), Dim("S", [3, 1], cost=1),
+        Dim("scale", ["absent", 0.5], cost=1),
+        Dim("vd", ["same", "differs"], cost=1),
+        Dim("dtype", ["f32", "f16"], cost=1),
         Dim("outs", ["all", "attn-only"], cost=1),
         S.d_ck(2), S.d_inter(2), S.D_DIMS, S.D_VI, S.d_opset(23, 24),
     ]
 
 
 def _gq_prune(p, rule):
-    if p["expand"] != "interleave" and p["unsq"] != "[2]":
-        return True
     return False
 
 
@@ -456,24 +471,23 @@ def _gq_build(p, rule):
     S.bind_like(mb, [B])
     kinds = S.kinds(p, 2)
 
-    def rep(past, cur, dd, layout, kind):
+    def rep(past, cur, dd, kind):
         present = mb.node("Concat", [past, cur], axis=-2)
         if p["unsq"] == "scalar2":
             axc = mb.const(arr("i64", 2), "init")
-        else:
-            axc = mb.const(arr("i64", [2] if (p["unsq"] == "[2]" and layout == "interleave") else [1]), "init")
-        un = mb.node("Unsqueeze", [present, axc])
-        if layout == "interleave" and p["unsq"] != "[1]":
+            eshape = [B, Hkv, G, T, dd]
+        elif p["unsq"] == "[2]":
+            axc = mb.const(arr("i64", [2]), "init")
             eshape = [B, Hkv, G, T, dd]
         else:
+            axc = mb.const(arr("i64", 1), "init")
             eshape = [B, G, Hkv, T, dd]
+        un = mb.node("Unsqueeze", [present, axc])
         ex = mb.node("Expand", [un, mb.const(arr("i64", eshape), kind, alts=[arr("i64", eshape)])])
         full = mb.node("Reshape", [ex, mb.const(arr("i64", [B, H, T, dd]), "init")])
         return present, full
-    klayout = "interleave" if p["expand"] in ("interleave", "value-tiled") else "tile"
-    vlayout = "interleave" if p["expand"] == "interleave" else "tile"
-    pkey, kfull = rep(pk, kk, D, klayout, kinds[0])
-    pval, vfull = rep(pv, v, Dv, vlayout, kinds[1])
+    pkey, kfull = rep(pk, kk, D, kinds[0])
+    pval, vfull = rep(pv, v, Dv, kinds[1])
     ins = [q, kfull, vfull]
     if p["mask"] == "float":
         ins.append(mb.inp("mask", dt, [Sq, T]))
@@ -496,8 +510,14 @@ def _gq_build(p, rule):
 
 
 def _gq_near(p, rule):
-    return p["expand"] != "interleave" or p["unsq"] != "[2]" or p["vd"] != "same" or S.is_nonconst(p)
+    return p["unsq"] == "scalar1" or p["vd"] != "same" or S.is_nonconst(p) or p["causal"] == 1 or p["inter"] != "none"
 
 
-S.register(Space("gqa", _gq_dims, _gq_build, near=_gq_near, prune=_gq_prune, accum=True, max_dev={"thorough": 1}),
+def _gq_klass(nd, p, rule):
+    if "inter" in nd and set(nd) <= {"inter"}:
+        return "inter=expanded-key/value-has-another-consumer"
+    return None
+
+
+S.register(Space("gqa", _gq_dims, _gq_build, near=_gq_near, prune=_gq_prune, klass=_gq_klass, accum=True),
            rule_ids=["fusion._gqa.ONNXGQA"])
